@@ -311,12 +311,12 @@ def impl(c, ctx):
     if c["op"] == "chist":
         import C15
 
-        outs, memo, cache, limits = C15._run(c["_t"]["cops"])
+        outs, memo, cache, limits, dcache = C15._run(c["_t"]["cops"])
         n = ctx.notes.setdefault("probed steps", {})
         for op, o in zip(c["_t"]["cops"], outs):
             key = (op["q"] if "q" in op else "Add" + op["k"]) + ("/" + o["err"] if "err" in o else "/ok")
             n[key] = n.get(key, 0) + 1
-        return dict(outs=outs, memo=memo, cache=cache, limits=limits)
+        return dict(outs=outs, memo=memo, cache=cache, limits=limits, dcache=dcache)
     db = _new_db()
     UnitDatabase.PushSingleton(db)
     try:
